@@ -51,6 +51,8 @@ def classify(c, r, version=''):
                         for k in ast.walk(m.value):
                             if isinstance(k, ast.Constant) and isinstance(k.value, (bytes, str)) and hard_nested_literal(k.value, m.value):
                                 return 'C08.fstring.nested_literal_unrepresentable'
+    if kind == 'raised' and exc.get('type') in ('RecursionError', 'RuntimeError') and 'recursion' in detail.lower() and (r.get('ast_depth') or 0) >= 100:
+        return 'C08.recursion.deep_nesting'
     if kind == 'raised' and exc.get('type') == 'ValueError' and 'integer string conversion' in detail:
         return 'C08.int.decimal_limit'
     if kind == 'raised' and exc.get('type') == 'UnstableMinification':
